@@ -246,7 +246,7 @@ func oracleC03(p *plan.Plan, his []plan.Rec, res *plan.Result) {
 			pendingEvents++
 		case "ctl.wait_stable":
 			if r.Err != "" {
-				viol(res, "hand-over-not-completed", p.Variant, "strict stabilisation (%s) not reached within the bound: %s", r.Op.Tag, r.Err)
+				viol(res, "hand-over-not-completed", p.Variant+stormTag(r.Err), "strict stabilisation (%s) not reached within the bound: %s", r.Op.Tag, r.Err)
 			} else {
 				if r.Op.Tag == "final" {
 					stable = true
